@@ -15,10 +15,12 @@ import json
 import os
 import pathlib
 import shutil
+import sys
 
 from . import common
 from .common import enc, dec
 from . import dsdlgen_simple
+from . import c11_watch as watch
 
 LANGS = ["c", "cpp", "py", "html"]
 EXT_OVERRIDES = [".hh", ".x", ".tar.gz", ".h.in", ".PY", ".._", ""]
@@ -52,13 +54,15 @@ def parts_of(p):
 # ------------------------------------------------------------------------------------------------------------
 # the real implementation
 # ------------------------------------------------------------------------------------------------------------
-def make_lctx(lang, ext=None, stem=None, enable=None):
+def make_lctx(lang, ext=None, stem=None, enable=None, config_files=()):
+    """The API route of the path glue: the same builder calls `ArgparseRunner._create_language_context` makes - both
+    overrides are handed over whether given or not (`None` = not given; the empty string is a value)."""
     from nunavut.lang import LanguageContextBuilder, Language
     b = LanguageContextBuilder(include_experimental_languages=True).set_target_language(lang)
-    if ext is not None:
-        b.set_target_language_configuration_override(Language.WKCV_DEFINITION_FILE_EXTENSION, ext)
-    if stem is not None:
-        b.set_target_language_configuration_override(Language.WKCV_NAMESPACE_FILE_STEM, stem)
+    if config_files:
+        b.add_config_files(*[pathlib.Path(f) for f in config_files])
+    b.set_target_language_extension(ext)
+    b.set_target_language_configuration_override(Language.WKCV_NAMESPACE_FILE_STEM, stem)
     if enable is not None:
         b.set_target_language_configuration_override(Language.WKCV_ENABLE_STROPPING, enable)
     return b.create()
@@ -263,15 +267,34 @@ def support_inputs(language):
     return list(language.support_namespace), names
 
 
-def request(enable, ext, stem, out_dir, order, table, types, refs, subs=(), names=()):
+def opt_enc(x):
+    return "~" if x is None else enc(x)
+
+
+def section_enc(d):
+    return ",".join(f"{enc(k)}={opt_enc(v)}" for k, v in d.items()) or "!"
+
+
+def glue_fields(route, lang, files, outdir, ext, stem):
+    """The six `<glue>` fields of the driver protocol: the language's section by name (`Gen/NsGlue.lean`), the sections of
+    the configuration files, and the three arguments exactly as given (`None` = not given)."""
+    return [route, "@" + enc(lang), ";".join(section_enc(f) for f in files) or "!", opt_enc(outdir), opt_enc(ext), opt_enc(stem)]
+
+
+def tree_tail(enable, order, table, types, refs, subs=(), names=()):
     tab = ",".join(f"{enc(a)}>{enc(b)}" for a, b in sorted(table.items())) or "!"
     if isinstance(order, str):
         o = order
     else:
         o = ",".join(key_enc(k) for k in order) or "!"
-    return " ".join(["tree", "1" if enable else "0", enc(ext), enc(stem), enc(out_dir), o, tab,
-                     ",".join(ty_enc(t) for t in types) or "!", ",".join(ty_enc(t) for t in refs) or "!",
-                     ",".join(enc(x) for x in subs) or "!", ",".join(enc(x) for x in names) or "!"])
+    return ["1" if enable else "0", o, tab,
+            ",".join(ty_enc(t) for t in types) or "!", ",".join(ty_enc(t) for t in refs) or "!",
+            ",".join(enc(x) for x in subs) or "!", ",".join(enc(x) for x in names) or "!"]
+
+
+def request(glue, enable, order, table, types, refs, subs=(), names=()):
+    """`gtree`: the model derives extension, stem and base path from the arguments itself (`cfgOfApi` / `cfgOfCli`)."""
+    return " ".join(["gtree"] + glue + tree_tail(enable, order, table, types, refs, subs, names))
 
 
 def _key(s):
@@ -544,14 +567,29 @@ def snapshot(d):
     return out
 
 
-def user_template_run(ctx, case, root, sandbox):
+FAILING_TEMPLATE = ("// generated for {{ T | type_to_include_path }}\n// line two\n"
+                    "{% if T.short_name == '@SHORT@' %}{{ 1 // 0 }}{% endif %}\n// end\n")
+
+
+def prepare_templates(sandbox, failing_short=None):
+    """The harness' own template directories (written before the observers are armed): `user_templates/Any.j2` renders
+    `{{ T | type_to_include_path }}`; `failing_templates/Any.j2` raises ZeroDivisionError half way through the type whose
+    short name is `failing_short`."""
+    top = pathlib.Path(sandbox).parent
+    tdir = top / "user_templates"
+    tdir.mkdir(exist_ok=True)
+    (tdir / "Any.j2").write_text("{{ T | type_to_include_path }}")
+    fdir = top / "failing_templates"
+    fdir.mkdir(exist_ok=True)
+    (fdir / "Any.j2").write_text(FAILING_TEMPLATE.replace("@SHORT@", failing_short or "~nothing~"))
+    return tdir, fdir
+
+
+def user_template_run(ctx, case, root, tdir):
     """A user template directory (`--templates`) whose only template renders `{{ T | type_to_include_path }}`: a real run
     (cwd and output directory as in the case) must succeed and every type's file must contain the type's path relative
     to the output directory.  Overwrites the files of the preceding run, creates no new ones."""
     from nunavut.jinja import DSDLCodeGenerator
-    tdir = pathlib.Path(sandbox).parent / "user_templates"
-    tdir.mkdir(exist_ok=True)
-    (tdir / "Any.j2").write_text("{{ T | type_to_include_path }}")
     base = pathlib.PurePosixPath(root.get_support_output_folder().as_posix())
     try:
         ug = DSDLCodeGenerator(root, templates_dir=tdir)
@@ -569,45 +607,100 @@ def user_template_run(ctx, case, root, sandbox):
     ctx.count("real_runs_user_template")
 
 
+def check_operations(ctx, case, events, named_dir, how):
+    """The clause "nothing is created outside the output directory" on the *operations* of a run: every creating operation
+    (open for writing, mkdir, rename/link target, scratch name handed out by tempfile) acts, physically, below the named
+    output directory - or is the `mkdir` of that directory / one of its missing ancestors."""
+    bad = []
+    for kind, q in events:
+        if kind == "observer-error":
+            ctx.extra.setdefault("observer_errors", [])
+            if len(ctx.extra["observer_errors"]) < 5:
+                ctx.extra["observer_errors"].append(q)
+            continue
+        ctx.count("operations_observed")
+        if watch.inside(q, named_dir) or (kind == "mkdir" and watch.ancestor_or_self(q, named_dir)):
+            continue
+        bad.append([kind, q])
+    if bad:
+        ctx.fail({"kind": "operation-outside-outdir"}, "a generation run performs a creating operation (open for writing / mkdir / rename / "
+                 "scratch file) outside the output directory", dict(case, observer=how, outdir_physical=named_dir, operations=bad[:8]))
+    return not bad
+
+
+def check_created(ctx, case, new_entries, named_dir, what="a real run created something outside the output directory"):
+    """The same on the resulting file system: every new directory entry of the sandbox (which encloses the output directory,
+    the working directory and TMPDIR) lies below the physical output directory or is one of its ancestors."""
+    outside = sorted(p for p in new_entries if not (watch.inside(p, named_dir) or watch.ancestor_or_self(p, named_dir)))
+    if outside:
+        ctx.fail({"kind": "created-outside-outdir"}, what, dict(case, outside=outside[:10], outdir_physical=named_dir))
+    return not outside
+
+
 def real_run(ctx, case, sandbox, cwd, out_spelled, out_abs, types, root_dir, lctx):
-    """A real (non-dry) generation; afterwards everything new below `sandbox` must lie below the output directory and
-    be exactly what the dry run announced."""
+    """A real (non-dry) generation watched by the audit-hook observer, TMPDIR inside the sandbox; afterwards everything new
+    below `sandbox` must lie below the output directory and be exactly what the dry run announced; every creating operation
+    must have acted below the output directory.  Then the same tree once more through a template directory whose template
+    fails half way through one type: the run must fail and still leave nothing outside."""
     from nunavut import build_namespace_tree
     from nunavut.jinja import DSDLCodeGenerator, SupportGenerator
-    before = snapshot(sandbox)
+    sandbox = os.path.realpath(sandbox)
+    tmpdir = os.path.join(sandbox, "tmp_c11")
+    os.makedirs(tmpdir, exist_ok=True)
+    failing = sorted(tkey(t)[1] for t in types)[len(types) // 2] if types else None
+    tdir, fdir = prepare_templates(sandbox, failing)
+    before = watch.snapshot(sandbox)
+    named_dir = os.path.realpath(os.path.join(cwd, out_spelled))     # the directory the caller named, resolved by the OS
+    if named_dir != os.path.realpath(out_abs):
+        raise RuntimeError(f"harness: {out_spelled!r} in {cwd} is {named_dir}, expected {out_abs}")
     old = os.getcwd()
     os.chdir(cwd)
     try:
         root = build_namespace_tree(types, root_dir, out_spelled, lctx)
         g, s = DSDLCodeGenerator(root), SupportGenerator(root)
         announced = [pathlib.Path(p) for p in list(g.generate_all(is_dryrun=True)) + list(s.generate_all(is_dryrun=True))]
-        announced = sorted({os.path.relpath(os.path.realpath(os.path.abspath(p)), os.path.realpath(sandbox)) for p in announced})  # a set: folded names share a file
+        announced = sorted({os.path.realpath(os.path.abspath(p)) for p in announced})  # a set: folded names share a file
         aborted = None
-        try:
-            g.generate_all(is_dryrun=False)
-            s.generate_all(is_dryrun=False)
-            user_template_run(ctx, case, root, sandbox)
-        except ValueError:
-            raise
-        except Exception as ex:  # a template that cannot render under this configuration: not C11's subject,
-            aborted = type(ex).__name__  # but whatever was created before the crash must still lie inside
-            ctx.count("real_run_aborted_by_template_error:" + aborted)
-            ctx.extra.setdefault("real_run_template_errors", [])
-            if len(ctx.extra["real_run_template_errors"]) < 5:
-                ctx.extra["real_run_template_errors"].append({"lang": case["lang"], "enable_stropping": case["enable_stropping"],
-                                                              "error": f"{aborted}: {str(ex)[:120]}"})
+        with watch.Watch(tmpdir) as w:
+            try:
+                g.generate_all(is_dryrun=False)
+                s.generate_all(is_dryrun=False)
+                user_template_run(ctx, case, root, tdir)
+            except ValueError:
+                raise
+            except Exception as ex:  # a template that cannot render under this configuration: not C11's subject,
+                aborted = type(ex).__name__  # but whatever was created before the crash must still lie inside
+                ctx.count("real_run_aborted_by_template_error:" + aborted)
+                ctx.extra.setdefault("real_run_template_errors", [])
+                if len(ctx.extra["real_run_template_errors"]) < 5:
+                    ctx.extra["real_run_template_errors"].append({"lang": case["lang"], "enable_stropping": case["enable_stropping"],
+                                                                  "error": f"{aborted}: {str(ex)[:120]}"})
+        check_operations(ctx, case, w.events, named_dir, "audit-hook")
+        new = watch.snapshot(sandbox) - before
+        check_created(ctx, case, new, named_dir)
+        files = sorted(p for p in new if os.path.isfile(p))
+        if aborted is None and files != announced:
+            ctx.fail({"kind": "run-vs-dry-run"}, "the files a real run creates are not the paths the dry run announces",
+                     dict(case, created=files[:40], announced=announced[:40]))
+        # ---- the same tree through a template that fails half way through one type
+        if failing is not None and aborted is None:
+            raised = None
+            with watch.Watch(tmpdir) as w2:
+                try:
+                    DSDLCodeGenerator(root, templates_dir=fdir).generate_all(is_dryrun=False)
+                except ZeroDivisionError:
+                    raised = True
+                except Exception as ex:  # noqa: BLE001
+                    raised = type(ex).__name__
+            if raised is not True:
+                ctx.extra.setdefault("failing_template_unexpected", []).append({"case": case.get("universe"), "raised": raised})
+            fcase = dict(case, failing_template_for=failing)
+            check_operations(ctx, fcase, w2.events, named_dir, "audit-hook")
+            check_created(ctx, fcase, watch.snapshot(sandbox) - before, named_dir,
+                          "a run that fails inside a template leaves something outside the output directory")
+            ctx.count("real_runs_failing_template")
     finally:
         os.chdir(old)
-    new = snapshot(sandbox) - before
-    out_rel = os.path.relpath(out_abs, sandbox)
-    outside = sorted(p for p in new if not (p == out_rel or p.startswith(out_rel + os.sep) or out_rel.startswith(p + os.sep)))
-    if outside:
-        ctx.fail({"kind": "created-outside-outdir"}, "a real run created something outside the output directory",
-                 dict(case, outside=outside[:10], outdir=out_rel))
-    files = sorted(p for p in new if os.path.isfile(os.path.join(sandbox, p)))
-    if aborted is None and files != announced:
-        ctx.fail({"kind": "run-vs-dry-run"}, "the files a real run creates are not the paths the dry run announces",
-                 dict(case, created=files[:40], announced=announced[:40]))
     ctx.count("real_runs")
     ctx.count("real_run_files", len(files))
     return files
@@ -733,11 +826,9 @@ def one_tree(ctx, pending, case, types, deps, root_dir, out_spelled, lctx, with_
         k = tkey(t)
         names.update(k[0]); names.add(short_ver(k))
     table = {n: language.filter_id(n, "path") for n in names}
-    from nunavut.lang import Language
-    line = request(language.enable_stropping, language.extension,
-                   language.get_config_value(Language.WKCV_NAMESPACE_FILE_STEM, "_"), out_spelled,
-                   second_pass_order(types), table, [tkey(t) for t in types], [tkey(t) for t in deps],
-                   *support_inputs(language))
+    line = request(glue_fields("api", case["lang"], [], out_spelled, case.get("ext"), case.get("stem")),
+                   language.enable_stropping, second_pass_order(types), table, [tkey(t) for t in types],
+                   [tkey(t) for t in deps], *support_inputs(language))
     pending.append((line, res, case, [tkey(t) for t in every]))
     return res, built
 
@@ -908,16 +999,414 @@ def run_root_spellings(ctx, pending):
     shutil.rmtree(ubase, ignore_errors=True)
 
 
+# ------------------------------------------------------------------------------------------------------------
+# the path glue: command line / builder API -> output directory, extension, stem; where the files really are
+# ------------------------------------------------------------------------------------------------------------
+GLUE_EXT_ARGS = [None, "", "h", ".h", ".hh", "tar.gz", ".tar.gz", "x.y", "..x", ".", "a/b", ".a/b", "PY", "0"]
+GLUE_STEM_ARGS = [None, "", "nsfile", "__ns__", "x.y", "_0", "index.v2", "_"]
+GLUE_OUT_ARGS = [None, "out", "out/", "a/../b", "/abs/x//", ".", "", "link/../out"]
+GLUE_CFG_VALUES = [".cfg", "", None, "cfg.x"]
+
+
+def cli_extension_oracle(raw):
+    """What `-e raw` asks for, written down independently of the code: the argument with a leading dot supplied unless it
+    is empty or has one."""
+    return raw if (raw == "" or raw.startswith(".")) else "." + raw
+
+
+def write_config_file(path, lang, values):
+    """A `--configuration` YAML file that sets keys of the language's section (`None` = YAML null)."""
+    import yaml
+    path.write_text(yaml.safe_dump({"nunavut.lang." + lang: dict(values)}))
+    return path
+
+
+_LANG_DEFAULTS = {}
+
+
+def lang_defaults(lang):
+    if lang not in _LANG_DEFAULTS:
+        language = make_lctx(lang).get_target_language()
+        from nunavut.lang import Language
+        _LANG_DEFAULTS[lang] = (language.extension, language.get_config_value(Language.WKCV_NAMESPACE_FILE_STEM, "_"))
+    return _LANG_DEFAULTS[lang]
+
+
+def parse_cli(argv):
+    import nunavut.cli
+    return nunavut.cli._make_parser().parse_args(argv)   # pylint: disable=protected-access
+
+
+def run_glue_values(ctx, drv):
+    """Stream "glue": random (language, configuration files, -O / -e / --namespace-output-stem given or not, empty or not)
+    through the real parser + `ArgparseRunner._create_language_context` (CLI route) and through the builder calls (API route)
+    versus `cfgOfCli` / `cfgOfApi`; compared: `args.outdir`, `language.extension`, the stem `Namespace.__init__` reads.
+    Failing-input search: a given override (the empty string is one) must arrive; an absent one must leave the default."""
+    from nunavut.cli.runners import ArgparseRunner
+    from nunavut.lang import Language
+    rng = ctx.rng
+    cfgdir = ctx.scratch / "glue_cfg"
+    cfgdir.mkdir(parents=True, exist_ok=True)
+    n = 90 if ctx.quick else 1200
+    combos = [(l, e, st) for l in LANGS for e in (None, "", "hh") for st in (None, "", "s")]     # the None/empty/value grid
+    reqs, reals, cases = [], [], []
+    for i in range(len(combos) + n):
+        if i < len(combos):
+            lang, ext, stem = combos[i]
+            out, files = None, []
+        else:
+            lang = rng.choice(LANGS)
+            ext, stem, out = rng.choice(GLUE_EXT_ARGS), rng.choice(GLUE_STEM_ARGS), rng.choice(GLUE_OUT_ARGS)
+            files = []
+            for _ in range(rng.choice([0, 0, 1, 2])):
+                vals = {}
+                if rng.random() < 0.7:
+                    vals["extension"] = rng.choice(GLUE_CFG_VALUES)
+                if rng.random() < 0.4:
+                    vals["namespace_file_stem"] = rng.choice(["cfgstem", "", None])
+                files.append(vals)
+        paths = [write_config_file(cfgdir / f"g{i}_{j}.yaml", lang, v) for j, v in enumerate(files)]
+        dext, dstem = lang_defaults(lang)
+        for route in ("cli", "api"):
+            case = {"universe": "glue", "route": route, "lang": lang, "ext_arg": ext, "stem_arg": stem, "outdir_arg": out,
+                    "configuration_files": files}
+            try:
+                if route == "cli":
+                    argv = ["--target-language", lang, "--experimental-languages"]
+                    for pth in paths:
+                        argv += ["--configuration", str(pth)]
+                    if out is not None: argv += ["--outdir", out]
+                    if ext is not None: argv += ["-e", ext] if rng.random() < 0.5 else ["--output-extension=" + ext]
+                    if stem is not None: argv += ["--namespace-output-stem=" + stem]
+                    args = parse_cli(argv)
+                    runner = ArgparseRunner.__new__(ArgparseRunner)
+                    runner._args = args                                   # pylint: disable=protected-access
+                    lctx = runner._create_language_context()              # pylint: disable=protected-access
+                    got_out = args.outdir
+                    want_ext = None if ext is None else cli_extension_oracle(ext)
+                else:
+                    lctx = make_lctx(lang, ext, stem, None, paths)
+                    got_out = out if out is not None else "api-out"
+                    want_ext = ext
+                language = lctx.get_target_language()
+                real = ["ok", got_out, language.extension, language.get_config_value(Language.WKCV_NAMESPACE_FILE_STEM, "_")]
+            except KeyError:
+                real = ["err:key"]
+            reals.append(real)
+            cases.append(case)
+            reqs.append(" ".join(["glue"] + glue_fields(route, lang, files, out if route == "cli" or out is not None else "api-out", ext, stem)))
+            ctx.case(("glue", route, lang, ext, stem, out, repr(files)), ext is not None or stem is not None or bool(files))
+            ctx.count("stream=glue")
+            ctx.count(f"glue_ext={'absent' if ext is None else 'empty' if ext == '' else 'given'}")
+            ctx.count(f"glue_stem={'absent' if stem is None else 'empty' if stem == '' else 'given'}")
+            # ---- the property's own predicate: what was asked for arrives
+            if real[0] == "ok":
+                exp_ext, exp_stem = dext, dstem
+                for f in files:                      # later files win; null means the empty string
+                    if "extension" in f: exp_ext = f["extension"] or ""
+                    if "namespace_file_stem" in f: exp_stem = f["namespace_file_stem"] or ""
+                if want_ext is not None: exp_ext = want_ext
+                if stem is not None: exp_stem = stem
+                exp_out = got_out if route == "api" else ("nunavut_out" if out is None else out)
+                if real[2] != exp_ext:
+                    ctx.fail({"kind": "extension-override-not-applied"}, "the output extension the caller asked for (an empty one included) "
+                             "is not the extension the language object generates with", dict(case, extension=real[2], expected=exp_ext))
+                if real[3] != exp_stem:
+                    ctx.fail({"kind": "stem-override-not-applied"}, "the namespace file stem the caller asked for is not the one Namespace uses",
+                             dict(case, stem=real[3], expected=exp_stem))
+                if real[1] != exp_out:
+                    ctx.fail({"kind": "outdir-respelled"}, "the output directory reaches build_namespace_tree in another spelling than the one given "
+                             "(only the operating system can tell which directory a spelling with '..' or links names)",
+                             dict(case, outdir=real[1], expected=exp_out))
+    if drv is not None:
+        for line, real, case, ans in zip(reqs, reals, cases, drv.ask(reqs)):
+            ctx.traces += 1
+            m = ans.split(" ")
+            m = [m[0]] + [dec(x) for x in m[1:]] if m[0] == "ok" else m
+            if m != real:
+                ctx.disagree("glue", dict(case, request=line), m, real)
+        # extension_type on its own
+        raws = GLUE_EXT_ARGS[1:] + ["".join(rng.choice(".h/a_.") for _ in range(rng.randint(0, 5))) for _ in range(60 if ctx.quick else 600)]
+        for raw, ans in zip(raws, drv.ask(["exttype " + enc(r) for r in raws])):
+            ctx.traces += 1
+            real = parse_cli(["-e", raw] if not raw.startswith("-") else ["--output-extension=" + raw]).output_extension
+            if dec(ans) != real:
+                ctx.disagree("exttype", raw, dec(ans), real)
+    shutil.rmtree(cfgdir, ignore_errors=True)
+
+
+CLI_SPEC = {"roots": [{"name": "vendor", "files": {
+    "Top.1.0.dsdl": "uint8 x\n@sealed\n", "a/b/Deep.1.0.dsdl": "uint8 x\n@sealed\n", "a/b/Deep.1.1.dsdl": "uint8 x\n@sealed\n",
+    "register/User.2.0.dsdl": "vendor.a.b.Deep.1.0 d\n@sealed\n"}}]}
+
+# (spelling relative to the working directory `work`, or None = the CLI default) - the sandbox layout is
+#   work/                      the working directory
+#   work/link  -> ../real/deep     work/alink -> <sandbox>/real (absolute)     real/deep/back -> ../../work
+#   work/gen/                  an existing plain directory
+CLI_SPELLINGS = [None, "out", "out/", "out/.", "./out//sub/", "gen/../out", "link/../out", "link/../../work/out2", "link/out", "alink/deep/../o.d",
+                 "link/back/o", "@ABS@/work/link/../out", "@ABS@/real//o2/", "link/../out/./x//", "alink/../work/gen/../o3"]
+
+
+def make_cli_sandbox(base):
+    sb = pathlib.Path(os.path.realpath(base))
+    for d in ("work/gen", "real/deep", "tmp_c11"):
+        (sb / d).mkdir(parents=True)
+    os.symlink("../real/deep", sb / "work" / "link")
+    os.symlink(str(sb / "real"), sb / "work" / "alink")
+    os.symlink("../../work", sb / "real" / "deep" / "back")
+    links = {}
+    for l in (sb / "work" / "link", sb / "work" / "alink", sb / "real" / "deep" / "back"):
+        links[str(l)] = os.path.realpath(l)
+    return sb, links
+
+
+def cli_inproc(argv, cwd):
+    """`nnvg argv` in this process (the whole route: `main()`, parser, runner), stdout captured."""
+    import contextlib
+    import io
+    import logging
+    import nunavut.cli
+    old, old_argv = os.getcwd(), sys.argv
+    out = io.StringIO()
+    os.chdir(cwd)
+    sys.argv = ["nnvg"] + list(argv)
+    os.environ.pop("DSDL_INCLUDE_PATH", None)
+    try:
+        with contextlib.redirect_stdout(out), contextlib.redirect_stderr(io.StringIO()):
+            try:
+                rc = nunavut.cli.main()
+            except SystemExit as e:
+                rc = e.code if isinstance(e.code, int) else 2
+            except Exception as e:  # noqa: BLE001 - nnvg lets exceptions escape: exit status 1 with a traceback
+                rc = type(e).__name__
+    finally:
+        os.chdir(old)
+        sys.argv = old_argv
+        logging.getLogger().handlers[:] = []
+    return rc, out.getvalue()
+
+
+def parts_enc(p):
+    ps = [x for x in p.split("/") if x]
+    return "/".join([enc("/")] + [enc(x) for x in ps])
+
+
+def cli_case(ctx, drv, roots, types, case, ubase, idx):
+    """One CLI case: `--list-outputs`, then a real run observed by the audit hook (in-process) or strace (subprocess) in a
+    fresh sandbox with symbolic links; predicates on the real run, then the model (`grun`, `resolve`)."""
+    import subprocess
+    lang = case["lang"]
+    sb, links = make_cli_sandbox(ubase / f"sb{idx}")
+    cwd = str(sb / "work")
+    tmpdir = str(sb / "tmp_c11")
+    rdir = roots[0]["dir"]
+    language = make_lctx(lang).get_target_language()
+    by_short = sorted(tkey(t)[1] for t in types)
+    failing = by_short[len(by_short) // 2] if case["templates"] == "failing" else None
+    tdir, fdir = prepare_templates(str(sb), failing)
+    spelled = None if case["outdir"] is None else case["outdir"].replace("@ABS@", str(sb))
+    files_cfg = case["configuration_files"]
+    cfg_paths = [write_config_file(sb / f"cfg{j}.yaml", lang, v) for j, v in enumerate(files_cfg)]
+    argv = ["--target-language", lang, "--experimental-languages", "--generate-support", case["support"]]
+    if spelled is not None: argv += ["--outdir", spelled]
+    if case["ext_arg"] is not None: argv += ["--output-extension=" + case["ext_arg"]]
+    if case["stem_arg"] is not None: argv += ["--namespace-output-stem=" + case["stem_arg"]]
+    if case["gnt"]: argv += ["--generate-namespace-types"]
+    if case["templates"] != "builtin": argv += ["--templates", str(tdir if case["templates"] == "user" else fdir)]
+    for pth in cfg_paths:
+        argv += ["--configuration", str(pth)]
+    argv += [rdir]
+    rep = dict(case, argv=argv[:-1] + ["<root namespace dir>"], cwd="<sandbox>/work", sandbox_links={k.replace(str(sb), "<sandbox>"): v.replace(str(sb), "<sandbox>") for k, v in links.items()})
+    named_dir = os.path.realpath(os.path.join(cwd, spelled if spelled is not None else "nunavut_out"))
+    ns_types = case["gnt"] or bool(language.has_standard_namespace_files)
+    # ---- 1. the listing
+    rc1, out1 = cli_inproc(argv[:-1] + ["--list-outputs", rdir], cwd)
+    listed = sorted(x for x in out1.split(";") if x.strip())
+    # ---- 2. the real run, observed
+    before = watch.snapshot(str(sb))
+    if case["how"] == "inproc":
+        with watch.Watch(tmpdir) as w:
+            rc2, _ = cli_inproc(argv, cwd)
+        events = w.events
+    else:
+        env = dict(os.environ, PYTHONPATH=str(common.REPO / "src"), PYTHONDONTWRITEBYTECODE="1", TMPDIR=tmpdir)
+        env.pop("DSDL_INCLUDE_PATH", None)
+        tf = sb / "trace.txt"
+        pr = watch.strace_run([common.PY, "-m", "nunavut"] + argv, cwd, env, tf)
+        rc2 = pr.returncode if pr.returncode in (0, 2) else "error"
+        events = watch.strace_events(tf, cwd)
+        tf.unlink()
+        ctx.count("cli_runs_under_strace")
+    new = watch.snapshot(str(sb)) - before
+    new_files = sorted(p for p in new if os.path.isfile(p))
+    ctx.count("cli_runs")
+    ctx.count("cli_outdir=" + ("default" if spelled is None else "through-link" if "link" in spelled else "dotdot" if ".." in spelled else "plain"))
+    ctx.count("cli_templates=" + case["templates"])
+    ctx.case(("cli", lang, case["outdir"], case["ext_arg"], case["stem_arg"], case["gnt"], case["templates"], case["support"], repr(files_cfg), case["how"]), True)
+    ctx.count("stream=cli")
+    # ---- predicates on the real run ---------------------------------------------------------------------------
+    check_operations(ctx, rep, events, named_dir, "audit-hook" if case["how"] == "inproc" else "strace")
+    check_created(ctx, rep, new, named_dir, "nnvg created something outside the directory its --outdir argument names "
+                  "(symbolic links and '..' resolved by the operating system)")
+    ok_run = rc2 == 0
+    expect_fail = case["templates"] == "failing" or case["ext_arg"] in (".", "a/b", ".a/b")
+    if ok_run and expect_fail:
+        ctx.extra.setdefault("cli_unexpected_success", []).append(rep["argv"])
+    if not ok_run and not expect_fail:
+        ctx.fail({"kind": "cli-run-fails"}, "nnvg fails on a plain request", dict(rep, rc=rc2))
+    if ok_run:
+        # every type has exactly one new file: <named dir>/<stropped namespace>/<stropped Short_M_m><requested extension>
+        dext, dstem = lang_defaults(lang)
+        exp_ext = dext
+        for f in files_cfg:
+            if "extension" in f: exp_ext = f["extension"] or ""
+        if case["ext_arg"] is not None: exp_ext = cli_extension_oracle(case["ext_arg"])
+        strop = lambda x: language.filter_id(x, "path")  # noqa: E731
+        for t in types:
+            k = tkey(t)
+            want = os.path.join(named_dir, *[strop(c) for c in k[0]], strop(short_ver(k)) + exp_ext)
+            if want not in new_files:
+                ctx.fail({"kind": "cli-path-formula"}, "the file of a type is not <output directory>/<stropped namespace>/<stropped Short_M_m><requested extension>",
+                         dict(rep, type=tstr(k), expected=want.replace(str(sb), "<sandbox>"), created=[x.replace(str(sb), "<sandbox>") for x in new_files][:12]))
+                break
+        if rc1 == 0 and sorted(os.path.realpath(os.path.join(cwd, x)) for x in listed) != new_files:
+            ctx.fail({"kind": "cli-list-vs-run"}, "--list-outputs does not name the files the run creates",
+                     dict(rep, listed=listed[:12], created=[x.replace(str(sb), "<sandbox>") for x in new_files][:12]))
+    # ---- the model ------------------------------------------------------------------------------------------------
+    if drv is not None:
+        names = set()
+        for t in types:
+            k = tkey(t)
+            names.update(k[0]); names.add(short_ver(k))
+        table = {n: language.filter_id(n, "path") for n in names}
+        subs, supn = support_inputs(language) if case["support"] != "never" else ([], [])
+        glue = glue_fields("cli", lang, files_cfg, spelled, case["ext_arg"], case["stem_arg"])
+        line = " ".join(["grun", "1" if ns_types else "0"] + glue +
+                        tree_tail(language.enable_stropping, second_pass_order(types), table, [tkey(t) for t in types], [], subs, supn))
+        link_s = ",".join(f"{parts_enc(k)}>{parts_enc(v)}" for k, v in sorted(links.items())) or "!"
+        rline = " ".join(["resolve", parts_enc(cwd), link_s, enc(spelled if spelled is not None else "nunavut_out")])
+        ans, rans = drv.ask([line, rline])
+        ctx.traces += 2
+        model_dir = "/" + "/".join(dec(x) for x in rans.split("/")[1:]) if rans != "~" else "?"
+        if model_dir != named_dir:
+            ctx.disagree("resolve", dict(rep, request=rline), model_dir.replace(str(sb), "<sandbox>"), named_dir.replace(str(sb), "<sandbox>"))
+        if ans.startswith("ok "):
+            _, fs_, ds_ = ans.split(" ")
+            mfiles = sorted(dec(x) for x in _lst(fs_, ";"))
+            mdirs = sorted(dec(x) for x in _lst(ds_, ";"))
+            if rc1 != 0 and not (case["templates"] == "builtin" and ns_types):
+                ctx.disagree("cli-list", dict(rep, request=line), mfiles[:10], f"rc={rc1}")
+            elif rc1 == 0 and mfiles != listed:
+                ctx.disagree("cli-list", dict(rep, request=line), mfiles[:12], listed[:12])
+            mphys = sorted({os.path.realpath(os.path.join(cwd, x)) for x in mfiles})
+            mdirs_phys = {os.path.realpath(os.path.join(cwd, x)) for x in mdirs}
+            if ok_run and mphys != new_files:
+                ctx.disagree("cli-run", dict(rep, request=line), [x.replace(str(sb), "<sandbox>") for x in mphys][:12],
+                             [x.replace(str(sb), "<sandbox>") for x in new_files][:12])
+            if not ok_run and not set(new_files) <= set(mphys):
+                ctx.disagree("cli-run-aborted", dict(rep, request=line), [x.replace(str(sb), "<sandbox>") for x in mphys][:12],
+                             [x.replace(str(sb), "<sandbox>") for x in new_files][:12])
+            opened = sorted({q for kind, q in events if kind == "open-w"})
+            made = {q for kind, q in events if kind == "mkdir"}
+            if ok_run and opened != mphys:
+                ctx.disagree("cli-ops-open", dict(rep, request=line), [x.replace(str(sb), "<sandbox>") for x in mphys][:12],
+                             [x.replace(str(sb), "<sandbox>") for x in opened][:12])
+            if not made <= mdirs_phys:
+                ctx.disagree("cli-ops-mkdir", dict(rep, request=line), sorted(x.replace(str(sb), "<sandbox>") for x in mdirs_phys)[:12],
+                             sorted(x.replace(str(sb), "<sandbox>") for x in made - mdirs_phys)[:12])
+        else:
+            # the model says the run raises (ValueError of with_suffix / KeyError): so must the CLI, listing and run
+            if rc1 == 0 or ok_run:
+                ctx.disagree("cli-error", dict(rep, request=line), ans, f"list rc={rc1} run rc={rc2}")
+    shutil.rmtree(sb, ignore_errors=True)
+
+
+def cli_cases(ctx, spellings=CLI_SPELLINGS):
+    """The quick tier's deterministic slice (every spelling, every -e / stem / configuration-file class, failing templates,
+    built-in templates, two runs under strace) plus random combinations."""
+    rng = ctx.rng
+    def mk(**kw):
+        c = {"universe": "cli-glue", "lang": "c", "outdir": "out", "ext_arg": None, "stem_arg": None, "gnt": True, "templates": "user",
+             "support": "never", "configuration_files": [], "how": "inproc"}
+        c.update(kw)
+        return c
+    cases = []
+    for i, sp in enumerate(spellings):
+        cases.append(mk(lang=LANGS[i % 4], outdir=sp, ext_arg=[None, "", ".hh"][i % 3], gnt=(i % 2 == 0)))
+    for i, e in enumerate(["", "h", ".tar.gz", "x.y", "..x", ".", "a/b"]):
+        cases.append(mk(lang=LANGS[i % 4], ext_arg=e, outdir=["out", "link/../out"][i % 2], support=["never", "as-needed"][i % 2]))
+    for i, st in enumerate(["nsfile", "x.y", "__ns__", "_0"]):
+        cases.append(mk(lang=LANGS[(i + 1) % 4], stem_arg=st, ext_arg=[None, ""][i % 2]))
+    cases.append(mk(lang="c", configuration_files=[{"extension": ".cfg"}]))
+    cases.append(mk(lang="cpp", configuration_files=[{"extension": None}], gnt=False))
+    cases.append(mk(lang="py", configuration_files=[{"extension": ".cfg", "namespace_file_stem": "cfgstem"}], ext_arg=""))
+    cases.append(mk(lang="html", configuration_files=[{"extension": ".one"}, {"extension": ".two"}], stem_arg="s"))
+    for i, l in enumerate(LANGS):
+        cases.append(mk(lang=l, templates="failing", outdir=["out", "link/../out", "gen/x", "alink/o"][i], gnt=(i % 2 == 1)))
+    cases.append(mk(lang="c", templates="builtin", gnt=False, support="as-needed", outdir="link/../out"))
+    cases.append(mk(lang="py", templates="builtin", gnt=False, support="as-needed", ext_arg=None, outdir="alink/deep/../py out"))
+    cases.append(mk(lang="html", templates="builtin", gnt=False, outdir="out/"))
+    cases.append(mk(lang="cpp", templates="builtin", gnt=False, support="always", ext_arg="hh"))
+    cases.append(mk(lang="c", how="strace", outdir="link/../out", ext_arg=""))
+    cases.append(mk(lang="c", how="strace", templates="failing", outdir="out"))
+    for _ in range(0 if ctx.quick else 400):
+        files = [{"extension": rng.choice(GLUE_CFG_VALUES)}] if rng.random() < 0.2 else []
+        tpl = rng.choice(["user", "user", "user", "failing", "builtin"])
+        cases.append(mk(lang=rng.choice(LANGS), outdir=rng.choice(spellings), ext_arg=rng.choice(GLUE_EXT_ARGS), stem_arg=rng.choice([None, None, "nsfile", "x.y", "_0"]),
+                        gnt=(tpl != "builtin" and rng.random() < 0.5), templates=tpl, support=rng.choice(["never", "never", "as-needed", "always"]),
+                        configuration_files=files, how="strace" if rng.random() < 0.05 else "inproc"))
+    return cases
+
+
+def run_cli_glue(ctx, drv):
+    """Stream "cli": real `nnvg` runs (in-process `main()`, a few as subprocesses under strace) in sandboxes with symbolic
+    links, the output directory spelled through links + `..`, with `/.`, `//`, absolute, default; -e / stem / --configuration
+    overrides given, empty or absent; user, built-in and failing templates."""
+    ubase = ctx.scratch / "cli"
+    roots = write_corpus_universe(ubase / "dsdl", CLI_SPEC)
+    types = read_root(roots[0])
+    for idx, case in enumerate(cli_cases(ctx)):
+        cli_case(ctx, drv, roots, types, case, ubase, idx)
+    if not ctx.quick:       # random universes as well
+        for u in range(12):
+            rs = dsdlgen_simple.make_universe(ctx.rng, ubase / f"u{u}", n_roots=1)
+            try:
+                ts = read_root(rs[0])
+            except Exception:  # noqa: BLE001 - rejected by the front end
+                continue
+            if not ts:
+                continue
+            for idx, case in enumerate(ctx.rng.sample(cli_cases(ctx)[:40], 10)):
+                cli_case(ctx, drv, rs, ts, dict(case, universe=f"cli-glue-random:{u}"), ubase, 1000 + u * 100 + idx)
+    shutil.rmtree(ubase, ignore_errors=True)
+
+
 def run(ctx: common.Ctx):
+    # ---- translator: keys, defaults and language sections of the path glue from the tree under check; the shape of the
+    #      transcribed code (parser options, _create_language_context, the builder's overrides) is checked by AST
+    try:
+        from translate import nsglue
+        tr = nsglue.main(common.REPO)
+        ctx.extra["translator"] = {"nsglue": {"changed": tr["changed"], "outdir_default": tr["outdir_default"],
+                                              "languages": [n for n, _ in tr["langs"]]}}
+    except Exception as e:  # the source can no longer be expressed: tie broken
+        ctx.broken.append({"kind": "translator", "translator": "nsglue", "error": repr(e)[:500]})
     drivers = ctx.prove(["C11"], exes=["nstree"])
     drv = drivers.get("nstree")
     ctx.rule = ("one case = (type list read by the real front end, language, extension/stem/stropping overrides, output directory "
                 "spelling); non-trivial = >= 2 namespaces or >= 2 types; distinct by (type list in order, configuration, spelling); "
                 "streams: corpus universes, every subset of <= k types of a 21-type universe, random universes of 1-3 roots with "
-                "gaps, versions, keyword names, nested and cross-root references, universes with names the stropping folds")
+                "gaps, versions, keyword names, nested and cross-root references, universes with names the stropping folds; "
+                "stream glue: (language, configuration files, -O/-e/--namespace-output-stem absent/empty/given) through the parser and "
+                "_create_language_context and through the builder API; stream cli: one case = one nnvg run (listing + real run observed by "
+                "an audit hook or strace) in a sandbox with symbolic links, the output directory spelled through links and '..'")
     ctx.assumptions = [
         "pathlib.PurePosixPath is modelled for the operations used (tie stream 'pathlib'); a segment starting with exactly two slashes is excluded",
-        "lexical containment: symbolic links below the output directory are not considered",
+        "containment is judged by physical location (os.path.realpath of what was created vs realpath of the named output directory); "
+        "symbolic links *below* the output directory are not considered (hypothesis NoLinkBelow of the theorems)",
+        "an output directory spelled with '..' after a component that does not exist is not exercised (mkdir -p would have to create that component)",
+        "the observers see Python-level creating operations (sys.addaudithook: open for writing, mkdir, rename/link/symlink, shutil, tempfile) "
+        "and, for the runs under strace, the creating system calls of the process tree",
         "the namespace directories exist (Namespace.__init__ raises FileNotFoundError otherwise): true for types read from them",
         "filter_id(., 'path') is a function of the name alone (sampled once per name into the strop table)",
         "the model iterates sets in insertion order; the second pass gets the real set's walk order, traversal results are compared as multisets",
@@ -934,6 +1423,10 @@ def run(ctx: common.Ctx):
     if drv is not None:
         run_pathlib_tie(ctx, drv)
     lap("pathlib_tie")
+    run_glue_values(ctx, drv)
+    lap("glue_values")
+    run_cli_glue(ctx, drv)
+    lap("cli_glue")
 
     rng = ctx.rng
     n_random = 60 if ctx.quick else 700
